@@ -79,6 +79,45 @@ def accessor_job(comm, shape, nprocs, layouts):
             corners.add(tuple((s - 1) // 2 for s in shp))
         for c in sorted(corners):
             call("getGlobalIndices", [int(x) for x in c], lambda: g.getGlobalIndices(*c), lambda r: [int(b) for b in r])
+    # the accessors must follow the grid through layout changes AND through save / restore (which changes the layout without
+    # a transpose): setLayout(B), save, setLayout(C), restore -> the grid is in B again
+    names = list(layouts)
+    if len(names) >= 2:
+        gs = Grid(eta, [None] * nd, h, names[0], comm, allocateSaveMemory=True)
+        gs.getAllData()[:] = 0.0
+        with sl.warnings.catch_warnings():
+            sl.warnings.simplefilter("ignore")
+            for b in names[1:] + names[:1]:
+                for c_ in names:
+                    if c_ == b:
+                        continue
+                    gs.setLayout(b)
+                    gs.saveGridValues()
+                    gs.setLayout(c_)
+                    gs.restoreGridValues()
+                    lay = gs.getLayout(gs.currentLayout)
+                    base = {"k": "accessor", "sh": list(shape), "ord": [d + 1 for d in layouts[gs.currentLayout]],
+                            "starts": [int(x) for x in lay.starts], "ends": [int(x) for x in lay.ends]}
+                    for i in range(nd):
+                        for nm, f, conv in (("getGlobalIdxVals", lambda: gs.getGlobalIdxVals(i), lambda r: [int(x) for x in r]),
+                                            ("getCoordVals", lambda: gs.getCoordVals(i), lambda r: [_dec(x) for x in r]),
+                                            ("getCoords", lambda: gs.getCoords(i), lambda r: [[int(a), _dec(x)] for a, x in r])):
+                            e = dict(base)
+                            e["name"], e["arg"], e["after_restore"] = nm, i + 1, True
+                            try:
+                                e["res"], e["ok"] = conv(f()), True
+                            except Exception as ex:
+                                e["res"], e["ok"], e["err"] = [], False, "%s: %s" % (type(ex).__name__, ex)
+                            evs.append(e)
+                    if all(x > 0 for x in lay.shape):
+                        cidx = tuple(x - 1 for x in lay.shape)
+                        e = dict(base)
+                        e["name"], e["arg"], e["after_restore"] = "getGlobalIndices", [int(x) for x in cidx], True
+                        try:
+                            e["res"], e["ok"] = [int(x) for x in gs.getGlobalIndices(*cidx)], True
+                        except Exception as ex:
+                            e["res"], e["ok"], e["err"] = [], False, "%s: %s" % (type(ex).__name__, ex)
+                        evs.append(e)
     evs.append({"k": "buffer", "buf": int(h.bufferSize), "sizes": sizes})
     return evs
 
@@ -208,6 +247,7 @@ def run(ctx):
         sig = {"kind": e["k"], "clause": clauses[0]}
         if e["k"] == "accessor":
             sig["name"] = e["name"]
+            sig["after_restore"] = bool(e.get("after_restore", False))
             if not e["ok"]:
                 sig["error"] = e.get("err", "").split(":")[0]
         if e["k"] == "exactbuf":
